@@ -7,6 +7,7 @@ package c05
 import (
 	"fmt"
 	"os"
+	"strings"
 	"testing"
 	"testing/synctest"
 	"time"
@@ -37,6 +38,7 @@ func TestCheck(t *testing.T) {
 	run.Assumptions = []string{
 		"pools of <= 8 units (plus two 2^64-unit single-step configurations); subscribers a,b,c (thorough: d)",
 		"epoch allocator only in its documented IPv4 /32 configuration",
+		"Engine B: the C01 thread scenarios on allocator/dhcp/pool, preemption bound 2 (thorough 3)",
 		"a store fault = the i-th store call returns an error and has no effect; one fault per history (thorough: two)",
 		"units explicitly marked unavailable (dhcp.Pool.MarkUnavailable) are outside the conservation demand",
 		"PeerPool single node (all subscribers local); nexus.Client is not named by C05",
@@ -50,6 +52,7 @@ func TestCheck(t *testing.T) {
 			m.Run(run)
 		}
 	}
+	runSched(run)
 	os.Exit(run.Finish())
 }
 
@@ -58,6 +61,9 @@ func replay(run *report.Run, ms []*explore.Model) int {
 	if err != nil {
 		fmt.Println("HARNESS-ERROR", err)
 		return 2
+	}
+	if strings.HasPrefix(v.Part, "sched:") {
+		return replaySched(run, v)
 	}
 	for _, m := range ms {
 		if m.Name+"["+m.Config+"]" == v.Part {
